@@ -139,6 +139,12 @@ def iter_is_finite(func, env, it, depth=0):
             t = env.type_of(it).strip_opt()
             if t.kind in ("list", "tuple", "dict"):
                 return True, "call returning " + t.kind
+            # a repository function hands back a finished object unless it is a generator or passes on an endless iterator
+            lazy = [n for n in ast.walk(c.node) if isinstance(n, (ast.Yield, ast.YieldFrom))]
+            endless = [n for n in ast.walk(c.node) if isinstance(n, ast.Call) and ast.unparse(n.func) in
+                       ("itertools.count", "itertools.cycle", "itertools.repeat", "count", "cycle", "repeat", "iter")]
+            if not lazy and not endless:
+                return True, "call of %s (returns a finished object)" % c.qualname
         return False, "call %s" % ast.unparse(f)
     if isinstance(it, ast.GeneratorExp):
         return all(iter_is_finite(func, env, g.iter, depth + 1)[0] for g in it.generators), "generator over finite iterables"
